@@ -516,6 +516,39 @@ fn run_inner(rng: &mut Rng, world: &World, k: u16, format: &str, dir: &str) -> C
             }
         }
     }
+    // (2d) in-place refinement: the SAME file is the context archive and the requested result archive; the context has to
+    // be read before the file is replaced by the results
+    if k == 1 && lib_sets.contains_key("p") && rng.coin() {
+        use biodivine_hctl_model_checker::analysis::analyse_formula;
+        let same = format!("{dir}/in_place.zip");
+        if std::fs::copy(&zip_path, &same).is_ok() {
+            let ext = "(!{x}: (AX (%p% | {x})))".to_string();
+            match libg::guarded(|| analyse_formula(&bn, ext.clone(), PrintOptions::NoPrint, Some(same.clone()), Some(same.clone()))) {
+                Ok(Ok(())) => {
+                    out.count("in_place_analyses");
+                    let loaded = load_bdd_bundle(&same, sys.graph.symbolic_context());
+                    let expect = call(|| mc::model_check_extended_formula_dirty(&ext, &sys.graph, &lib_sets));
+                    if let (Ok(l), Call::Ok(e)) = (loaded, expect) {
+                        match l.get("formula-0") {
+                            Some(s5) if s5.as_bdd() == e.as_bdd() => {}
+                            _ => {
+                                out.violate("reloaded context differs in effect from the in-memory sets", format!("analyse_formula with one file as context and result archive on `{ext}`: archived result differs from the in-memory evaluation"), detail("in place"));
+                                return out;
+                            }
+                        }
+                    }
+                }
+                Ok(Err(e)) => {
+                    out.violate("analysis fails on valid formulae", format!("analyse_formula with one file as context and result archive on `{ext}`: {e}"), detail(&e));
+                    return out;
+                }
+                Err(p) => {
+                    out.violate(&libg::panic_signature(&p), format!("analyse_formula (in place) panicked on `{ext}`: {p}"), detail(&p));
+                    return out;
+                }
+            }
+        }
+    }
     if out.nontrivial {
         out.sample = Some(detail("held"));
     }
